@@ -20,7 +20,7 @@
 
    Limiter tokens of the per-client limiter and the inline/replay hand-off are compared
    differentially only; see props/C05/NOTES.md. *)
-From Sdns Require Import Common.Base Common.GoList Gen.C05 C05.Model C05.Proofs C05.Proofs_libfuel C05.Ladder C05.Proofs_ladder C05.Edns C05.Proofs_edns C05.Proofs_gen3 C05.Proofs_loops C05.Chase C05.Proofs_chase.
+From Sdns Require Import Common.Base Common.GoList Gen.C05 C05.Model C05.Proofs C05.Proofs_libfuel C05.Ladder C05.Proofs_ladder C05.Edns C05.Proofs_edns C05.Proofs_gen3 C05.Proofs_loops C05.Chase C05.Proofs_chase C05.Proofs_inline.
 Open Scope N_scope.
 
 (* the strict admission never accepts what the library rejects, and reads the same facts *)
@@ -241,4 +241,27 @@ Theorem admitted_alias_only_not_self :
   forall r, In r rs -> r_type name r = TypeCNAME -> fold (r_target name r) <> fold qn.
 Proof. exact admitted_alias_only_not_self. Qed.
 Print Assumptions admitted_alias_only_not_self.
+
+(* ONE CHARGE PER QUESTION across ServeRawInline + ServeRawReplay: the inline pass (the wire ladder alone;
+   a decline hands the query off with nothing written and the [spent] permit forgotten) followed by the
+   replay (Cache.ServeDNS skips the ladder, decoded body with no permit) yields the outcome AND the state
+   of every limiter bucket of the decoded ladder on its own: same reply, refused (dropped) in the same
+   token states, the same number of tokens charged - for every store, token state, request, writer-chain
+   behaviour of either pass.  Premise [no_backstop]: no decline after the byte path charged (lease, expiry
+   between check and build, build, commit fall-back) - the code comment accepts these as the rare double
+   charge; ex_backstop_double_charge shows the premise is necessary, and seeded change C05-9 (the
+   deterministic size decline moved behind the charge) is caught by the differential driver. *)
+Theorem inline_replay_one_charge :
+  forall (body reply : Type) (shape_msg shape_wire cut_msg cut_wire : body -> lreq -> reply)
+         (fail_msg fail_wire servfail_norec : lreq -> reply) (denial_msg : body -> lreq -> reply)
+         (zone_eval : N * N -> question -> option body),
+  (forall (e : entry body) rq b, wire_body_for body e rq = Some b -> shape_wire b rq = shape_msg (e_full body e) rq) ->
+  (forall b rq, cut_wire b rq = cut_msg b rq) ->
+  (forall rq, fail_wire rq = fail_msg rq) ->
+  forall (st : store body) tk rq ch ch', store_ok body zone_eval st -> no_backstop body st rq ch ->
+  c_internal ch' = c_internal ch ->
+  serve_inline_replay body reply shape_msg shape_wire cut_msg cut_wire fail_msg fail_wire servfail_norec denial_msg zone_eval st tk rq ch ch'
+  = msg_ladder body reply shape_msg cut_msg fail_msg servfail_norec denial_msg zone_eval st tk rq ch' None.
+Proof. exact inline_replay_refines. Qed.
+Print Assumptions inline_replay_one_charge.
 
